@@ -10,6 +10,9 @@
     G <cs> <key> <item>  get_object_item(item, key, cs) -> `some <index of the child>` | `none`
     O <fails> <const> <key> <object> <item>   add_item_to_object(object, key, item, &global_hooks, const) with the ledger starting at
                          live=1000 -> `ok|FAIL next=<calls> live=<blocks> | <object> | attached` or `… | orphan <item>`
+    R <fails> <checked> <key> <object> <item>   cJSON_ReplaceItemInObject(object, key, item), ledger from live=1000; <checked> = does the
+                         code inspect the key copy (the harness ignores it, the tie passes what it observed)
+                         -> `ok|FAIL next= live= | <object> | consumed` or `… | orphan <item>`
     A <idx> <item>       cJSON_GetArraySize / cJSON_GetArrayItem -> `size <n> some <j>` | `size <n> none`
 
   <item> (prefix form): I <kind> <flags: 1 = IsReference, 2 = StringIsConst> <valueint> <valuedouble bits hex>
@@ -97,6 +100,13 @@ def stepLine (u : Unit) (line : String) : Unit × List String :=
       let orphan := match r.orphan with | none => "attached" | some o => "orphan " ++ showItem o
       (u, [s!"{if r.ok then "ok" else "FAIL"} next={r.a.next} live={r.a.live} | {showItem r.obj} | {orphan}"])
     | _, _, _ => (u, ["ERROR bad O"])
+  | "R" :: f :: chk :: key :: rest =>
+    match parseFails f, Hex.toBytes? key, parseItems 2 rest with
+    | some fl, some key, some ([obj, it], []) =>
+      let r := replaceInObject (fun n => fl.contains n) (chk == "1") false key obj it ⟨0, 1000⟩
+      let orphan := match r.orphan with | none => "consumed" | some o => "orphan " ++ showItem o
+      (u, [s!"{if r.ok then "ok" else "FAIL"} next={r.a.next} live={r.a.live} | {showItem r.obj} | {orphan}"])
+    | _, _, _ => (u, ["ERROR bad R"])
   | w :: _ => if w.startsWith "#" then (u, []) else (u, ["ERROR unknown op"])
 
 def run (_args : List String) : IO UInt32 := do
